@@ -1,31 +1,46 @@
 (* Denorm.v — feeding a normalised equation back to the parser: vocabulary.  Definitions only.
 
    A normalised equation is a token list (GNorm.neq).  Its de-normalised text writes every NAME[t], NAME[t+k], NAME[t-k] as
-   NAME[0], NAME[+k], NAME[-k] (property C14; layout `canon`) — or, more generally, with blanks inside the index bracket and
-   with or without the "+" of a lead, as a `layout` says — and leaves everything else as it is.  `dq_ok` collects the
+   NAME[0], NAME[+k], NAME[-k] (property C14; layout `canon`) — or, more generally, as a `layout` says: as a parameter { NAME }
+   or an error < NAME > with blanks inside, with blanks inside the index bracket, with or without the "+" of a lead, with
+   [0] left out — and leaves everything else as it is.  `dq_ok` collects the
    decidable conditions under which DenormFacts.normal_form_fixed_point holds. *)
 From Coq Require Import String Ascii List Bool Arith ZArith.
 Import ListNotations.
-Require Import Generated PyBase PyStr Lex Format Symbols Split Merge ParseEq GLex GNorm LayoutNorm.
+Require Import Generated PyBase PyStr Lex Format Symbols Split Merge ParseEq GLex GLexFacts GNorm LayoutNorm ContSplit.
 Open Scope string_scope.
 
 Definition dz (k : Z) : string := if (0 <? k)%Z then "+" ++ string_of_Z k else string_of_Z k.
 
-(* how one term is written: blanks after "[", blanks before "]", and whether a lead carries its "+".  The layout is a
-   function of the term (name, index): every theorem holds for EVERY such function. *)
-Definition layout : Type := string -> pidx -> string * string * bool.
-Definition canon : layout := fun _ _ => ("", "", true).        (* NAME[0], NAME[+k], NAME[-k] *)
+(* how one term is written.  Style: plain NAME, a parameter { NAME } or an error < NAME > (with any blanks inside the braces /
+   angle brackets).  Index: not written at all (only for offset 0), or [ blanks body blanks ] where a lead may carry its "+".
+   A layout is a function of the term (name, index): every theorem holds for EVERY such function. *)
+Inductive tstyle : Type := SVar | SPar (w1 w2 : string) | SErr (w1 w2 : string).
+Record tlay : Type := mkLay { lstyle : tstyle; lindex : option (string * string * bool) }.
+Definition layout : Type := string -> pidx -> tlay.
+Definition canon : layout := fun _ _ => mkLay SVar (Some ("", "", true)).        (* NAME[0], NAME[+k], NAME[-k] *)
 
 Definition ibody (plus : bool) (i : pidx) : string :=
   match i with IInt k => if plus then dz k else string_of_Z k | IStr s => s end.
-Definition didx (lay : layout) (name : string) (i : pidx) : string := let '(_, _, plus) := lay name i in ibody plus i.
+Definition style_text (s : tstyle) (name : string) : string :=
+  match s with
+  | SVar => name
+  | SPar w1 w2 => brk_text "{" "}" w1 name w2
+  | SErr w1 w2 => brk_text "<" ">" w1 name w2
+  end.
+Definition index_text (ix : option (string * string * bool)) (i : pidx) : string :=
+  match ix with None => "" | Some (w1, w2, plus) => idx_text w1 (ibody plus i) w2 end.
 Definition dtext (lay : layout) (x : ntok) : string :=
   match x with
-  | NTerm name i => let '(w1, w2, plus) := lay name i in name ++ "[" ++ w1 ++ ibody plus i ++ w2 ++ "]"
+  | NTerm name i => style_text (lstyle (lay name i)) name ++ index_text (lindex (lay name i)) i
   | _ => ntok_text x
   end.
 Fixpoint dflat (lay : layout) (l : list ntok) : string := match l with [] => "" | x :: r => dtext lay x ++ dflat lay r end.
 Definition denorm_text (lay : layout) (q : neq) : string := dflat lay (nlhs q) ++ "=" ++ dflat lay (nrhs q).
+
+(* what a term written in a style is for the parser *)
+Definition style_kind (s : tstyle) : kind := match s with SVar => KVariable | SPar _ _ => KParameter | SErr _ _ => KError end.
+Definition style_type (side : ptype) (s : tstyle) : ptype := match s with SVar => side | SPar _ _ => TParameter | SErr _ _ => TError end.
 
 (* the Term that parse_terms builds for a token (ty = what a VARIABLE becomes on this side of the equation) *)
 Definition tok_term (ty : ptype) (x : ntok) : option term :=
@@ -42,6 +57,19 @@ Fixpoint tok_terms (ty : ptype) (l : list ntok) : list term :=
   | x :: r => match tok_term ty x with Some t => t :: tok_terms ty r | None => tok_terms ty r end
   end.
 Definition neq_terms (q : neq) : list term := (tok_terms TEndogenous (nlhs q) ++ tok_terms TExogenous (nrhs q))%list.
+(* … when the terms are written in the styles of a layout *)
+Definition lay_term (lay : layout) (side : ptype) (x : ntok) : option term :=
+  match x with
+  | NTerm name i => Some (mkTerm name (style_type side (lstyle (lay name i))) (Some i))
+  | _ => tok_term side x
+  end.
+Fixpoint lay_terms (lay : layout) (side : ptype) (l : list ntok) : list term :=
+  match l with
+  | [] => []
+  | x :: r => match lay_term lay side x with Some t => t :: lay_terms lay side r | None => lay_terms lay side r end
+  end.
+Definition lneq_terms (lay : layout) (q : neq) : list term :=
+  (lay_terms lay TEndogenous (nlhs q) ++ lay_terms lay TExogenous (nrhs q))%list.
 
 (* Term.code of a token *)
 Definition tok_code (x : ntok) : string :=
@@ -64,11 +92,21 @@ Fixpoint ttemplate (l : list ntok) : string :=
   end.
 
 (* one token re-lexes as itself in the de-normalised text *)
+Definition style_ok (s : tstyle) (name : string) : bool :=
+  match s with
+  | SVar => kw_free name
+  | SPar w1 w2 | SErr w1 w2 => all_chars is_space w1 && all_chars is_space w2
+  end.
+Definition index_ok (s : tstyle) (ix : option (string * string * bool)) (i : pidx) (rest : string) : bool :=
+  match ix with
+  | Some (w1, w2, plus) => idx_ok (ibody plus i) && all_chars is_space w1 && all_chars is_space w2
+  | None => match i with IInt z => (z =? 0)%Z | IStr _ => false end &&                 (* only [0] may be left out *)
+            match s with SVar => bare_follow rest | _ => head_not (fun c => Ascii.eqb c "[") rest end
+  end.
 Definition dtok_ok (lay : layout) (pw : bool) (x : ntok) (rest : string) : bool :=
   match x with
   | NTerm name i =>
-      let '(w1, w2, plus) := lay name i in
-      is_ident name && kw_free name && idx_ok (ibody plus i) && all_chars is_space w1 && all_chars is_space w2 &&
+      is_ident name && style_ok (lstyle (lay name i)) name && index_ok (lstyle (lay name i)) (lindex (lay name i)) i rest &&
       match i with
       | IInt k => negb (Nat.ltb int_max_str_digits (count_digits (dz k)))       (* int() digit limit *)
       | IStr s => quoted_by "'" s || quoted_by """" s
@@ -81,24 +119,34 @@ Fixpoint dwf_k (lay : layout) (pw : bool) (l : list ntok) (k : string) : bool :=
   | x :: r => dtok_ok lay pw x (dflat lay r ++ k) && dwf_k lay (last_word pw (dtext lay x)) r k
   end.
 
-Definition text_char_ok (c : ascii) : bool :=
-  negb (is_linesep c) && negb (Ascii.eqb c "#") && negb (Ascii.eqb c "{") && negb (Ascii.eqb c "}").
+Definition nobrace (l : list ntok) : bool :=
+  forallb (fun x => match x with NChr c => negb (Ascii.eqb c "{") && negb (Ascii.eqb c "}") | _ => true end) l.
+Definition whole_toks (q : neq) : list ntok := (nlhs q ++ NChr "=" :: nrhs q)%list.
 
-(* the conditions of the fixed-point / layout theorem: a single assigned term (written without blanks inside its bracket:
-   finding #22) and blanks on the left; the right-hand side re-lexes token by token; no line separator, "#" or brace
-   anywhere; round brackets balanced; the character skeleton is in normal form *)
-Definition dq_ok (lay : layout) (q : neq) : bool :=
+(* the left-hand side is a plain NAME[k] (no braces: finding #14; no blanks inside its bracket: finding #22); [0] may be left out *)
+Definition lhs_lay_ok (l : tlay) (ky : Z) : bool :=
+  match lstyle l, lindex l with
+  | SVar, Some ("", "", _) => true
+  | SVar, None => (ky =? 0)%Z
+  | _, _ => false
+  end.
+
+(* the conditions of the layout theorem: a single assigned term and blanks on the left; the right-hand side re-lexes token by
+   token; round brackets balanced, a newline only inside an open round bracket (continuation line) and no other line separator
+   (ContSplit.cont_scan); no "#"; no brace outside a parameter token, as many "{" as "}" (the parser's own test) *)
+Definition dq_ok_ws (lay : layout) (q : neq) : bool :=
   match nlhs q with
   | NTerm y (IInt ky) :: ws =>
       is_ident y && kw_free y && negb (Nat.ltb int_max_str_digits (count_digits (dz ky))) &&
-      (let '(w1, w2, _) := lay y (IInt ky) in match w1, w2 with "", "" => true | _, _ => false end) &&
+      lhs_lay_ok (lay y (IInt ky)) ky &&
       forallb (fun x => match x with NChr c => is_space c | _ => false end) ws &&
       dwf_k lay false (nrhs q) "" &&
-      all_chars text_char_ok (denorm_text lay q) &&
-      match count_parens 0 (denorm_text lay q) with Some 0 => true | _ => false end &&
-      normal (ttemplate (nlhs q ++ NChr "=" :: nrhs q))
+      cont_scan 0 (denorm_text lay q) && negb (has_char "#" (denorm_text lay q)) &&
+      nobrace (whole_toks q) && Nat.eqb (count_char "{" (denorm_text lay q)) (count_char "}" (denorm_text lay q))
   | _ => false
   end.
+(* … and the character skeleton is in normal form: then the texts produced are exactly neq_text q / neq_code q *)
+Definition dq_ok (lay : layout) (q : neq) : bool := dq_ok_ws lay q && normal (ttemplate (whole_toks q)).
 
 (* the canonical de-normalisation of the property text, for the extracted driver *)
 Definition dq_ok_canon (q : neq) : bool := dq_ok canon q.
